@@ -461,6 +461,9 @@ Step(st, ev) ==
     [] ev.e = "mquery"  -> IF a[1] \in Mons /\ st.mon[a[1]].alive
                            THEN [st |-> st, obs |-> [Obs0 EXCEPT !.q = <<B2I(st.mon[a[1]].died), B2I(st.mon[a[1]].died)>>]]
                            ELSE Skip(st)
+    [] ev.e = "mqueryx" -> \* unlocked read of a monitor's atomic flag from a thread that does not own the object:
+                           \* it may take effect anywhere between the surrounding critical sections, the value is not constrained here
+                           [st |-> st, obs |-> Obs0]
     [] ev.e = "iscompleted" -> IF a[1] \in Seqs /\ st.qalive[a[1]]
                            THEN [st |-> st, obs |-> [Obs0 EXCEPT !.q = <<B2I(IsCompleted(st, a[1])), -1>>]]
                            ELSE Skip(st)
